@@ -173,6 +173,17 @@ pub fn cmd_builder(v: &Value) -> Value {
             b
         }
         "with_all" => set_obj(b.with_all(cons), obj.clone()),
+        // a later objective call replaces an earlier one: first a throw-away objective in the other direction
+        // (for a satisfy model: a throw-away maximisation), then the real call
+        "override" => {
+            let junk = if vars.is_empty() { Expr::from(7.0) } else { Expr::from(vars[0]) * 3.0 + 7.0 };
+            let b = match dir {
+                "min" => b.maximize(junk),
+                "max" => b.minimize(junk),
+                _ => b.maximize(junk),
+            };
+            set_obj(b.with_all(cons), obj.clone())
+        }
         _ => {
             let mut b = b;
             for c in cons {
